@@ -14,8 +14,9 @@
 //	    steps start / persist / paystart / emit / persistcheque release them in
 //	    the prescribed order; `restart` crashes the store handle (parked writes
 //	    never happen), builds a new service on the surviving store and logs the
-//	    restored totals; reconnect / credit / pay then observe the first cheque
-//	    after the restart.
+//	    restored totals; reconnect (the peer presents the cheque it holds) / pay
+//	    / credit / pay then observe whether a cheque is issued although nothing
+//	    new was consumed, and the first cheque after the restart.
 //
 // The driver holds no expected values.
 package main
@@ -374,8 +375,27 @@ func runSched(sc kit.Scenario, out *kit.Out) error {
 		return err
 	}
 	// sequential prefix: debts that exist before the concurrent phase
+	// (credits, and -- op "pay" -- payments that complete: the peer then holds a cheque before the concurrent phase)
+	held0 := make([]int64, nPeers) // highest payout delivered to each peer by a payment of the prefix that returned nil
 	for _, pre := range kit.List(sc.Par, "pre") {
 		m, _ := pre.(map[string]interface{})
+		if kit.Str(m, "op") == "pay" {
+			p := kit.Int(m, "p")
+			after := n.spawned()
+			e, panicked, msg := n.pay(p, true)
+			if e != nil || panicked {
+				return fmt.Errorf("pre pay: %v %s", e, msg)
+			}
+			if len(n.emit.Peek()) > 0 {
+				after(0, 1)
+			}
+			for _, em := range n.takeEmitted() {
+				if cum, ok := em[0].(int64); ok && em[1] == true && p >= 1 && p <= nPeers && cum > held0[p-1] {
+					held0[p-1] = cum
+				}
+			}
+			continue
+		}
 		if e := n.svc.PutRetrieveTraffic(settle.Overlay(kit.Int(m, "p")), big.NewInt(int64(kit.Int(m, "x")))); e != nil {
 			return fmt.Errorf("pre: %w", e)
 		}
@@ -384,7 +404,7 @@ func runSched(sc kit.Scenario, out *kit.Out) error {
 	if err != nil {
 		return err
 	}
-	out.Begin(sc.Scn, kit.Ev{"mode": "sched", "thr": n.thr, "st": st})
+	out.Begin(sc.Scn, kit.Ev{"mode": "sched", "thr": n.thr, "st": st, "held0": held0})
 
 	// A step the code cannot take at the prescribed moment (its goroutine is blocked on a lock, or has not
 	// reached the gate yet) is deferred, per goroutine and in order, and taken as soon as it becomes possible:
